@@ -24,11 +24,16 @@ INTERVAL = ["tanhsinh", "legendre", "simpson", "romberg"]
 WEIGHTED = ["laguerre", "hermite", "chebyshev", "chebyshev_second"]
 
 
-def integrand(rng, routine, cx, span, xmax=1.0):
+def integrand(rng, routine, cx, span, xmax=1.0, tol=1e-3):
     """integrands of the classes where the routines' estimators are reliable; polynomial coefficients are scaled so
     that the integral stays O(10): with an absolute tolerance down to 1e-11, rounding in the sums of a rule must stay
     below the tolerance for the two-consecutive-rules test to be able to pass at all"""
     r = rng.random()
+    # Gauss-Legendre stops at the first of its twelve rules that agrees with its predecessor twice in a row, so the
+    # ten-point rule must already be within tol: for an oscillation a sin(w x) over a span L its error is about
+    # 4 a (wL/2)^20 / 20!, which bounds the admissible w L by the tolerance (found by the sweep: w L = 7.9 at
+    # tol 1.3e-11 ends in Err, rightly)
+    wl_leg = min(8.0, 2.0 * (abs(tol) * 2.0e17) ** 0.05)
 
     def poly(deg, scale):
         return {"k": "poly", "c": [c11.cz(rng.uniform(-2, 2) * scale(k), (rng.uniform(-2, 2) * scale(k)) if cx else 0.0) for k in range(deg + 1)], "p": []}
@@ -38,7 +43,7 @@ def integrand(rng, routine, cx, span, xmax=1.0):
         # real part easy, imaginary part hard: a stopping rule that looks at one component only stops too early
         easy = {"k": "poly", "c": [c11.cz(rng.uniform(-2, 2)), c11.cz(rng.uniform(-1, 1) / max(1.0, xmax))], "p": []}
         # up to ~4 periods over the interval for tanh-sinh (385 nodes); twelve Gauss-Legendre rules resolve about one
-        lim = 25.0 if routine == "tanhsinh" else 8.0
+        lim = 25.0 if routine == "tanhsinh" else wl_leg
         w = min(rng.uniform(2.0, lim / max(span, 0.05)), lim)
         hard = {"k": "sin", "c": [c11.cz(0.0)], "p": [fp(rng.uniform(1, 3)), fp(w), fp(rng.uniform(0, 6.28))]}
         parts = (easy, hard) if rng.random() < 0.7 else (hard, easy)
@@ -52,7 +57,7 @@ def integrand(rng, routine, cx, span, xmax=1.0):
             return poly(rng.randint(0, 14), lambda k: 1.0), True
         return poly(rng.randint(0, 12), lambda k: max(1.0, xmax) ** (-k)), True
     if cx and r < 0.6 and routine in INTERVAL:
-        w = min(rng.uniform(0.5, 8.0 / max(span, 0.05)), 20.0)
+        w = min(rng.uniform(0.5, (wl_leg if routine == "legendre" else 8.0) / max(span, 0.05)), 20.0)
         return {"k": "cis", "c": [c11.cz(0.0)], "p": [fp(rng.uniform(0.5, 2)), fp(w), fp(rng.uniform(0, 6.28))]}, True
     if r < 0.7:
         if routine in INTERVAL:
@@ -66,7 +71,7 @@ def integrand(rng, routine, cx, span, xmax=1.0):
             c = 0.3
         return {"k": "exp", "c": [c11.cz(0.0)], "p": [fp(amp), fp(c)]}, True
     if routine in INTERVAL:
-        w = rng.uniform(0.3, min(8.0 / max(span, 0.05), 20.0))
+        w = rng.uniform(0.3, min((wl_leg if routine == "legendre" else 8.0) / max(span, 0.05), 20.0))
     elif routine == "laguerre":
         w = rng.uniform(0.1, 0.5)
     else:
@@ -98,7 +103,7 @@ def gen(ctx, rng, n):
             f = {"k": "poly", "c": [c11.cz(float(rng.randint(-3, 3)), float(rng.randint(-2, 2)) if cx else 0.0) for _ in range(deg + 1)], "p": []}
             must = True
         else:
-            f, must = integrand(rng, routine, cx, span if routine in INTERVAL else 0.0, max(abs(a), abs(b)))
+            f, must = integrand(rng, routine, cx, span if routine in INTERVAL else 0.0, max(abs(a), abs(b)), tol)
         if routine == "simpson" and span > 2.4 and tol < 1e-7:
             deg = rng.choice([4, 5])
             f = {"k": "poly", "c": [c11.cz(rng.uniform(-2, 2) * max(1.0, abs(a), abs(b)) ** (-k), 0.0) for k in range(deg + 1)], "p": []}
